@@ -11,6 +11,7 @@ def c04Op (args : List String) : String :=
   | "fd" :: _ => "proc=1 alive=1"
   | "fdviso" :: _ => "proc=1 served=full"
   | "mem" :: _ => "proc=1 mem=ok served=true"
+  | "memsfo" :: _ => "proc=1 mem=ok alive=1"
   | _ => "bad-op"
 
 end Driver
